@@ -116,7 +116,10 @@ func runC03(c *an.Ctx) {
 			}
 			c.Check(okT, "C03.a", key, rule, fn, call, "source: tail header fetched from the local store or the trusted getter: "+src, nil)
 		default:
-			c.Fail("C03.a", key, rule, fn, call, "unexpected caller of syncStore.Append", nil)
+			// a helper that appends its own parameter: the obligation moves to its call sites, which
+			// must all be in the tail-renewal function and pass a trusted fetch
+			okH := len(els) == 1 && passedTrustedByRenew(c, g, renew, fn, els[0])
+			c.Check(okH, "C03.a", key, rule, fn, call, "source: "+src+" (a parameter is accepted when every caller is the tail renewal passing a header fetched from the store or the trusted getter)", nil)
 		}
 	}
 	// underlying Store.Append (embedded interface) only in syncStore.Append and the forced tail write
@@ -139,7 +142,9 @@ func runC03(c *an.Ctx) {
 				els := an.VariadicArgs(call.Call.Args[len(call.Call.Args)-1])
 				c.Check(len(els) == 1 && trustedFetch(t, c.F(fn), els[0], 0), "C03.a", "underlying-append:renewTail", "the forced (non-adjacent) write stores only the tail header fetched from the store or the trusted getter", fn, call, "", nil)
 			default:
-				c.Fail("C03.a", "underlying-append:"+an.FuncName(fn), "the underlying Store.Append is invoked only by syncStore.Append and by the forced tail write", fn, call, "", nil)
+				els := an.VariadicArgs(call.Call.Args[len(call.Call.Args)-1])
+				c.Check(len(els) == 1 && passedTrustedByRenew(c, g, renew, fn, els[0]), "C03.a", "underlying-append:"+an.FuncName(fn),
+					"the underlying Store.Append is invoked only by syncStore.Append and by the forced tail write (possibly through a helper of the tail renewal that is handed the fetched header)", fn, call, "", nil)
 			}
 		})
 	}
@@ -247,7 +252,9 @@ func runC03(c *an.Ctx) {
 		for _, hc := range callsTo(ssAppend, p.Method("sync", "syncStore", "Head")) {
 			headC = hc
 		}
-		if loop == nil || len(loop.Elems) == 0 || headC == nil {
+		if (loop == nil || len(loop.Elems) == 0) && headC != nil && checkAdjacencyWalker(c, ssAppend, headC) {
+			// the adjacency walk lives in a helper (checked there)
+		} else if loop == nil || len(loop.Elems) == 0 || headC == nil {
 			c.Undecided("C03.c", "adjacency-loop", "syncStore.Append walks all headers against the head", ssAppend, nil, "loop over the headers or the head lookup not found")
 		} else {
 			elem := t.Of(loop.Elems[0])
@@ -381,6 +388,168 @@ func contradictory(fs an.FactSet) bool {
 		}
 	}
 	return false
+}
+
+// checkAdjacencyWalker handles the variant of syncStore.Append in which the adjacency walk was
+// extracted into a helper W(head, headers) (newHead, error) of the same package: the same
+// obligations are evaluated inside W, and Append must store only after W returned nil.
+func checkAdjacencyWalker(c *an.Ctx, ssAppend *ssa.Function, headC *ssa.Call) bool {
+	t, ff := c.T(ssAppend), c.F(ssAppend)
+	headT := t.Of(headC) + "#0"
+	var wc *ssa.Call
+	var w *ssa.Function
+	var wl *idxLoop
+	hdIdx := -1
+	an.Instrs(ssAppend, func(in ssa.Instruction) {
+		call, isCall := in.(*ssa.Call)
+		if !isCall || call.Call.IsInvoke() {
+			return
+		}
+		cal := an.StaticCallee(&call.Call)
+		if cal == nil || cal.Blocks == nil || cal.Pkg != ssAppend.Pkg {
+			return
+		}
+		si, hi := -1, -1
+		for i, a := range call.Call.Args {
+			switch t.Of(a) {
+			case "p2":
+				si = i
+			case headT:
+				hi = i
+			}
+		}
+		if si < 0 || hi < 0 {
+			return
+		}
+		if l := loopOver(c.T(cal), "p"+itoa(si)); l != nil && len(l.Elems) > 0 {
+			wc, w, wl, hdIdx = call, cal, l, hi
+		}
+	})
+	if w == nil {
+		return false
+	}
+	wt, wf := c.T(w), c.F(w)
+	elem := wt.Of(wl.Elems[0])
+	// rolling header: a phi at the loop header, the head parameter on entry, the accepted element on the way back
+	var roll *ssa.Phi
+	for _, in := range wl.Header.Instrs {
+		ph, isPhi := in.(*ssa.Phi)
+		if !isPhi {
+			break
+		}
+		if ph != wl.Phi && ph.Type() == wl.Elems[0].Type() {
+			roll = ph
+		}
+	}
+	var adj *an.Fact
+	if roll != nil {
+		rollH := "(Height(" + wt.Of(roll) + ")+1)"
+		for _, f := range condFacts(wt) {
+			if f.Op == "EQ" && (f.A == rollH && f.B == "Height("+elem+")" || f.B == rollH && f.A == "Height("+elem+")") {
+				g2 := an.Fact{Atom: f.Atom, Pos: true}
+				adj = &g2
+			}
+		}
+	}
+	okRoll := roll != nil && adj != nil
+	if okRoll {
+		for _, pe := range wf.PhiOperands(roll) {
+			if wf.Dominates(wl.Header, pe.Pred) {
+				okRoll = okRoll && wt.Of(pe.Val) == elem && pe.Facts.Has(*adj)
+			} else {
+				okRoll = okRoll && wt.Of(pe.Val) == "p"+itoa(hdIdx)
+			}
+		}
+	}
+	c.Check(okRoll, "C03.c", "rolling-adjacency", "each header must be at previous.Height()+1, where previous starts as the head and becomes each accepted header in turn", w, nil, "walk extracted into "+an.FuncName(w), nil)
+	if adj != nil {
+		pr := wf.Prune(adj.Neg())
+		n := 0
+		for _, r := range pr.Returns() {
+			if pr.AtInstr(r).Has(adj.Neg()) {
+				n++
+				c.Check(strings.HasPrefix(wt.ErrShape(errResult(r)), "&sync.errNonAdjacent{"), "C03.c", "non-adjacent-rejected", "a non-adjacent header is rejected with errNonAdjacent", w, r, wt.ErrShape(errResult(r)), nil)
+			}
+		}
+		c.Min("C03.c", "rejections of a non-adjacent header", n, 1)
+	}
+	// the walker reports success only after the whole walk
+	for _, r := range wf.Returns() {
+		if wt.ErrShape(errResult(r)) == "nil" {
+			c.Check(wf.AtInstr(r).Has(wl.InLoop.Neg()), "C03.c", "walk-accepts-only-at-loop-exit", "the adjacency walk returns a nil error only after it has visited every header", w, r, "", wf.AtInstr(r))
+		}
+	}
+	// Append stores only after the walk accepted
+	atOrAbove := an.GE("Height(p2[0])", "Height("+headT+")")
+	wErr := t.Of(wc) + "#" + itoa(w.Signature.Results().Len()-1)
+	n := 0
+	an.Instrs(ssAppend, func(in ssa.Instruction) {
+		call, isCall := in.(*ssa.Call)
+		if !isCall || !call.Call.IsInvoke() || call.Call.Method.Name() != "Append" {
+			return
+		}
+		fs := ff.AtInstr(call)
+		if fs.Has(an.B("errors.Is(" + t.Of(headC) + "#1,header.ErrEmptyStore)")) {
+			return
+		}
+		n++
+		pr := ff.Prune(atOrAbove)
+		okG := !pr.Reachable(call.Block()) || pr.AtInstr(call).Has(an.EQ(wErr, "nil"))
+		c.Check(okG && fs.Has(an.EQ(t.Of(headC)+"#1", "nil")), "C03.c", "append-after-adjacency-loop", "headers at or above the head reach the underlying store only after the adjacency loop accepted all of them", ssAppend, call, "", pr.AtInstr(call))
+	})
+	c.Min("C03.c", "guarded underlying appends", n, 1)
+	return true
+}
+
+// passedTrustedByRenew: v is a parameter of the helper fn, every call site of fn lies in the
+// tail renewal (or in another such helper, one more level) and passes a trusted fetch there.
+func passedTrustedByRenew(c *an.Ctx, g *an.CallGraph, renew, fn *ssa.Function, v ssa.Value) bool {
+	return passedTrusted(c, g, renew, fn, v, 0)
+}
+
+func passedTrusted(c *an.Ctx, g *an.CallGraph, renew, fn *ssa.Function, v ssa.Value, depth int) bool {
+	if depth > 2 {
+		return false
+	}
+	if d := c.T(fn).Deref(v); d != nil {
+		v = d
+	}
+	par, isPar := v.(*ssa.Parameter)
+	if !isPar {
+		return false
+	}
+	idx := -1
+	for i, p := range fn.Params {
+		if p == par {
+			idx = i
+		}
+	}
+	sites := g.Sites(fn)
+	if idx < 0 || len(sites) == 0 {
+		return false
+	}
+	for _, cs := range sites {
+		if cs.Method != nil {
+			return false
+		}
+		call, isCall := cs.Instr.(*ssa.Call)
+		if !isCall || idx >= len(call.Call.Args) {
+			return false
+		}
+		arg := call.Call.Args[idx]
+		caller := cs.Caller
+		switch {
+		case caller == renew:
+			if !trustedFetch(c.T(caller), c.F(caller), arg, 0) {
+				return false
+			}
+		default:
+			if !passedTrusted(c, g, renew, caller, arg, depth+1) {
+				return false
+			}
+		}
+	}
+	return true
 }
 
 func trustedFetch(t *an.Terms, ff *an.FuncFacts, v ssa.Value, depth int) bool {
